@@ -76,6 +76,16 @@ class DirectiveParsingResult:
     """
 
 
+def split_lines(text: str) -> list[str]:
+    """Split text into lines at line feeds only, as markdown-it counts lines
+    (``str.splitlines`` also splits at form feeds, U+2028, etc.).
+    """
+    lines = text.split("\n")
+    if not lines[-1]:
+        lines.pop()
+    return lines
+
+
 def parse_directive_text(
     directive_class: type[Directive],
     first_line: str,
@@ -117,13 +127,13 @@ def parse_directive_text(
         parse_warnings = result.warnings
         has_options_block = result.has_options
         options = result.options
-        body_lines = result.content.splitlines()
-        content_offset = len(content.splitlines()) - len(body_lines)
+        body_lines = split_lines(result.content)
+        content_offset = len(split_lines(content)) - len(body_lines)
     else:
         parse_warnings = []
         has_options_block = False
         options = {}
-        body_lines = content.splitlines()
+        body_lines = split_lines(content)
         content_offset = 0
 
     if not (directive_class.required_arguments or directive_class.optional_arguments):
@@ -180,7 +190,7 @@ def _parse_directive_options(
     if content.startswith("---"):
         line = None if line is None else line + 1
         # keep every line terminated, so that no (blank) line is lost when re-splitting
-        content = "".join(ln + "\n" for ln in content.splitlines()[1:])
+        content = "".join(ln + "\n" for ln in split_lines(content)[1:])
         match = re.search(r"^-{3,}", content, re.MULTILINE)
         if match:
             options_block = content[: match.start()]
@@ -190,7 +200,7 @@ def _parse_directive_options(
             content = ""
         options_block = dedent(options_block)
     elif content.lstrip().startswith(":") and not content.lstrip().startswith(":::"):
-        content_lines = content.splitlines()
+        content_lines = split_lines(content)
         yaml_lines = []
         while content_lines:
             first = content_lines[0].lstrip()
